@@ -38,6 +38,7 @@ class Sched:
         self.stall_s = stall_s
         self.last_progress = time.monotonic()
         self.overrun = False
+        self.exceptions = {}
 
     # ---- scheduling core (call with self.cv held)
     def _pick(self):
@@ -109,6 +110,7 @@ class Sched:
             except BaseException as exc:  # pylint: disable=broad-except
                 sys.settrace(None)
                 results[i] = ("exc", f"{type(exc).__name__}: {exc}")
+                self.exceptions[i] = exc
             finally:
                 with self.cv:
                     self.alive.discard(i)
@@ -145,13 +147,15 @@ class Sched:
 class SchedLock:
     """Cooperative lock with the context-manager and acquire/release interface."""
 
-    def __init__(self, sched):
+    def __init__(self, sched, reentrant=False):
         self.s = sched
         self.owner = None
+        self.reentrant = reentrant
+        self.depth = 0
 
     @staticmethod
     def _me():
-        return threading.current_thread().sched_idx
+        return getattr(threading.current_thread(), "sched_idx", None)
 
     def acquire(self, blocking=True, timeout=-1):
         """Same signature as threading / multiprocessing locks.  A finite timeout is modelled
@@ -161,6 +165,19 @@ class SchedLock:
         me = self._me()
         s = self.s
         timed = (timeout is not None and timeout >= 0) or not blocking
+        if me is None:
+            # a thread the scheduler does not own (the main thread, before or after the run):
+            # nothing else runs then, so the lock is simply taken
+            if self.owner is not None and not (self.reentrant and self.owner == "outside"):
+                if timed:
+                    return False
+                raise RuntimeError("SchedLock: unscheduled thread would block forever")
+            self.owner = "outside"
+            self.depth += 1
+            return True
+        if self.reentrant and self.owner == me:
+            self.depth += 1
+            return True
         with s.cv:
             # acquiring is a scheduling point
             s.steps += 1
@@ -185,16 +202,26 @@ class SchedLock:
                 s.cv.notify_all()
                 s._wait_turn(me)
             self.owner = me
+            self.depth = 1
         return True
 
     def release(self):
         s = self.s
+        if self.owner is None:
+            raise RuntimeError("release unlocked lock")
+        if self.reentrant and self.depth > 1:
+            self.depth -= 1
+            return
         with s.cv:
             self.owner = None
+            self.depth = 0
             for i, lock in list(s.blocked.items()):
                 if lock is self:
                     del s.blocked[i]
             s.cv.notify_all()
+
+    def locked(self):
+        return self.owner is not None
 
     def __enter__(self):
         self.acquire()
@@ -230,3 +257,80 @@ def chooser_pct(priorities, change_points):
         return max(runnable, key=lambda i: (prio.get(i, 0), -i))
 
     return choose
+
+
+def _lock_like(x):
+    return not isinstance(x, type) and hasattr(x, "acquire") and hasattr(x, "release")
+
+
+class _ModuleProxy:
+    """Stands for a module inside one namespace: Lock/RLock make cooperative locks, every
+    other attribute is the real module's."""
+
+    def __init__(self, real, sched):
+        self._real = real
+        self._sched = sched
+
+    def Lock(self, *_a, **_k):  # noqa: N802
+        return SchedLock(self._sched)
+
+    def RLock(self, *_a, **_k):  # noqa: N802
+        return SchedLock(self._sched, reentrant=True)
+
+    def __getattr__(self, name):
+        return getattr(self._real, name)
+
+
+class Interpose:
+    """Context manager that makes every lock the traced module can see a cooperative one,
+    however the module organises its locking: lock-valued attributes of the given classes
+    (directly or inside class-level dicts) are replaced, and while the block runs the names
+    `multiprocessing` / `threading` / `Lock` / `RLock` in the module's namespace produce
+    SchedLocks, so locks created lazily are cooperative too.  Everything is restored on exit
+    (entries added to class-level dicts that hold a SchedLock are removed)."""
+
+    def __init__(self, sched, module, classes):
+        self.s, self.module, self.classes = sched, module, classes
+        self.undo = []
+        self.replaced = 0
+
+    def _coop(self, old):
+        self.replaced += 1
+        return SchedLock(self.s, reentrant="RLock" in type(old).__name__)
+
+    def __enter__(self):
+        import multiprocessing
+        import types
+
+        for cls in self.classes:
+            for name, val in list(vars(cls).items()):
+                if _lock_like(val):
+                    self.undo.append((setattr, (cls, name, val)))
+                    setattr(cls, name, self._coop(val))
+                elif isinstance(val, dict):
+                    for k, v in list(val.items()):
+                        if _lock_like(v):
+                            self.undo.append((val.__setitem__, (k, v)))
+                            val[k] = self._coop(v)
+        mod = self.module
+        for name, val in list(vars(mod).items()):
+            if isinstance(val, types.ModuleType) and val.__name__ in ("multiprocessing", "threading", "_thread"):
+                self.undo.append((setattr, (mod, name, val)))
+                setattr(mod, name, _ModuleProxy(val, self.s))
+            elif val in (multiprocessing.Lock, threading.Lock):
+                self.undo.append((setattr, (mod, name, val)))
+                setattr(mod, name, lambda *_a, **_k: SchedLock(self.s))
+            elif val in (multiprocessing.RLock, threading.RLock):
+                self.undo.append((setattr, (mod, name, val)))
+                setattr(mod, name, lambda *_a, **_k: SchedLock(self.s, reentrant=True))
+        return self
+
+    def __exit__(self, *exc):
+        for fn, args in reversed(self.undo):
+            fn(*args)
+        for cls in self.classes:
+            for val in vars(cls).values():
+                if isinstance(val, dict):
+                    for k in [k for k, v in val.items() if isinstance(v, SchedLock)]:
+                        del val[k]
+        return False
